@@ -34,6 +34,8 @@ CHECKS["C16"] = ("exploration", "5.C16", "refinement of consumer-group histories
   "Seeded search over multi-consumer, multi-group histories (reads with COUNT/NOACK, acknowledgements, claims with idle thresholds against virtual time, administration commands, entries added and deleted in between); replies are compared with the model and the stored group state (both pending indexes, per-consumer counters, total, cursor) is read back through verif_check_consistency after every command. Histories are sampled, not enumerated.")
 CHECKS["C18"] = ("exploration", "5.C18", "multi-connection simulation with exact execution order from the transport seam, fed to a 16-database reference model with per-connection selection; canonical dump of all 16 databases compared after every turn; model-independent value tagging",
   "Seeded search over connections moving among databases and running every command family on equal key names through all four execution paths (direct, MULTI/EXEC incl. queued SELECT, EVAL/EVALSHA, blocking pops completed later), WATCH across SELECT, FLUSHDB/FLUSHALL, invalid SELECTs and reconnects; replies, the 16-way dump and embedded database tags in returned values are checked. Histories are sampled.")
+CHECKS["C19"] = ("exploration", "5.C19", "seeded cursor iterations driven through the simulated server with churn of other elements scheduled between successive calls; oracle over the recorded iteration (returned union vs. elements present throughout / ever present)",
+  "Seeded search over key sets (0-400 elements, all types), COUNT/MATCH/TYPE options and interleavings of additions and deletions between SCAN/HSCAN/SSCAN/ZSCAN calls; completeness, soundness w.r.t. filters, reply shape and termination are decided over each recorded iteration. Key sets, options and interleavings are sampled.")
 NOT_APPLICABLE = []
 def main():
     import json as _j
